@@ -35,6 +35,15 @@ type Run struct {
 	Rec  *Recorder
 	Vals map[string]interface{}
 	Fail string // set by the body for violations it detects itself (clause|detail)
+	// Cleanup functions run after the execution has been judged (also when it was pruned).
+	Cleanup []func()
+}
+
+func (x *Run) cleanup() {
+	for _, f := range x.Cleanup {
+		f()
+	}
+	x.Cleanup = nil
 }
 
 func (x *Run) failf(clause, f string, a ...interface{}) {
@@ -58,6 +67,16 @@ type Scenario struct {
 	Check func(x *Run, o *rt.Outcome) (clause, detail, outcome string)
 	// AllowLeak: library goroutines still parked at the end are not a violation.
 	AllowLeak bool
+	// Shards: number of worker processes the DFS is split over (second-level subtrees).
+	Shards int
+	// Bound overrides the tier's preemption bound when > 0 (BoundSet).
+	Bound    int
+	BoundSet bool
+	// FreeBound bounds the number of non-default choices at non-preemptive
+	// scheduling points (a thread blocked, yielded or exited and several others
+	// are runnable); 0 = unbounded. Scenarios with many blocking points need it:
+	// the set of non-preemptive schedules alone is exponential there.
+	FreeBound int
 }
 
 // Stats of one exploration.
@@ -73,6 +92,7 @@ type Stats struct {
 	Exhaustive  bool             `json:"exhaustive"`
 	TimedOut    bool             `json:"timed_out"`
 	MaxPreempts int              `json:"max_preemptions_seen"`
+	FreeBound   int              `json:"free_deviation_bound"`
 	Threads     int              `json:"threads"`
 	Sample      []string         `json:"sample,omitempty"`
 	WallS       float64          `json:"wall_s"`
@@ -117,7 +137,7 @@ type Explorer struct {
 	shard    int
 	nshards  int
 	deadline time.Time
-	visited  map[uint64]int8
+	visited  map[uint64][2]int8
 	st       Stats
 	viol     *Violation
 	infraErr string
@@ -189,15 +209,24 @@ func (e *Explorer) explore(prefix []int, depth int) {
 	var prune func(int, rt.PointInfo) bool
 	if cacheOn {
 		prune = func(idx int, p rt.PointInfo) bool {
-			rem := int8(e.bound - p.Preempts)
-			if old, ok := e.visited[p.Key]; ok && old >= rem {
-				return true
+			rem := [2]int8{int8(e.bound - p.Preempts), 127}
+			if e.sc.FreeBound > 0 {
+				rem[1] = int8(e.sc.FreeBound - p.FreeDevs)
+			}
+			if old, ok := e.visited[p.Key]; ok {
+				if old[0] >= rem[0] && old[1] >= rem[1] {
+					return true
+				}
+				if !(rem[0] >= old[0] && rem[1] >= old[1]) {
+					return false // incomparable budgets: keep the old entry, explore
+				}
 			}
 			e.visited[p.Key] = rem
 			return false
 		}
 	}
 	x, o := e.runOnce(prefix, false, prune)
+	defer x.cleanup()
 	count := e.nshards <= 1 || depth >= 2 || e.shard == 0
 	if o.Diverged != "" {
 		e.infraErr = "DIVERGENCE: " + o.Diverged + fmt.Sprintf(" prefix=%v", prefix)
@@ -255,6 +284,9 @@ func (e *Explorer) explore(prefix []int, depth int) {
 		if cost > e.bound {
 			continue
 		}
+		if e.sc.FreeBound > 0 && !p.CurEnabled && !p.Data && p.FreeDevs+1 > e.sc.FreeBound {
+			continue
+		}
 		if cost > e.st.MaxPreempts {
 			e.st.MaxPreempts = cost
 		}
@@ -278,7 +310,7 @@ func (e *Explorer) explore(prefix []int, depth int) {
 
 // Explore runs bounds 0..maxBound in turn (iterative context bounding).
 func Explore(sc *Scenario, maxBound, shard, nshards int, budget time.Duration, noCache bool) (*Stats, *Violation, string, []*Violation) {
-	e := &Explorer{sc: sc, shard: shard, nshards: nshards, visited: map[uint64]int8{}, noCache: noCache}
+	e := &Explorer{sc: sc, shard: shard, nshards: nshards, visited: map[uint64][2]int8{}, noCache: noCache}
 	e.st.Outcomes = map[string]int64{}
 	e.st.BoundDone = -1
 	start := time.Now()
@@ -299,6 +331,7 @@ func Explore(sc *Scenario, maxBound, shard, nshards int, budget time.Duration, n
 		e.st.States = e.st.Executions
 	}
 	e.st.Exhaustive = e.st.BoundDone == maxBound
+	e.st.FreeBound = sc.FreeBound
 	e.st.WallS = time.Since(start).Seconds()
 	var kn []*Violation
 	for _, v := range e.known {
@@ -313,6 +346,7 @@ func Replay(sc *Scenario, choices []int) (*Violation, *rt.Outcome, string) {
 	e := &Explorer{sc: sc}
 	e.st.Outcomes = map[string]int64{}
 	x, o := e.runOnce(choices, true, nil)
+	defer x.cleanup()
 	if o.Diverged != "" {
 		return nil, o, "DIVERGENCE: " + o.Diverged
 	}
